@@ -1,6 +1,6 @@
 #!/bin/bash
 # tools/seeds_regress.sh [seed-dir...] : applies every seeded change under /verif/seeded/<id>/patch.diff to a scratch
-# worktree and runs the quick check of the property it was written for plus the checks that caught it when it was
+# worktree and runs the quick check of the property it was written for and, if that passes, the checks that caught it when it was
 # confirmed; writes seeded/RESULTS.tsv (seed, checks that fail now, first violation of the seed's own property check) and
 # records the result as "caught_by_final" in the seed's meta.json.
 cd "$(dirname "$0")/.."
@@ -9,7 +9,12 @@ dirs=${*:-seeded/C*-*/}
 for d in $dirs; do
   d=${d%/}; id=$(basename "$d"); prop=${id%%-*}
   others=$(python3 -c "import json;print(' '.join(c for c in json.load(open('$d/meta.json')).get('caught_by',[]) if c!='$prop'))")
-  res=$(MUT_SHOW=1 tools/mut.sh "$d/patch.diff" $prop $others 2>&1)
+  res=$(MUT_SHOW=1 tools/mut.sh "$d/patch.diff" $prop 2>&1)
+  if ! echo "$res" | grep -q "exit=1" && [ -n "$others" ]; then
+    # the property's own check does not see it (for most of these by construction): the checks that caught it when it was confirmed
+    res="$res
+$(MUT_SHOW=1 tools/mut.sh "$d/patch.diff" $others 2>&1)"
+  fi
   failing=$(echo "$res" | awk '/exit=1/{print $1}' | tr '\n' ' ')
   bad=$(echo "$res" | awk '/exit=2/{print $1}' | tr '\n' ' ')
   first=$(echo "$res" | grep -A1 "^$prop exit=1" | grep "entry=" | head -1 | sed 's/^ *//' | cut -c1-160)
